@@ -3,7 +3,6 @@
 package elasticquota
 
 import (
-	"context"
 	"encoding/json"
 	"fmt"
 	"math/rand"
@@ -21,13 +20,15 @@ import (
 
 	"github.com/koordinator-sh/koordinator/apis/extension"
 	"github.com/koordinator-sh/koordinator/apis/thirdparty/scheduler-plugins/pkg/apis/scheduling/v1alpha1"
+	"github.com/koordinator-sh/koordinator/pkg/features"
+	utilfeature "github.com/koordinator-sh/koordinator/pkg/util/feature"
 )
 
 // Wire format: see /verif/coq/C15/Extract.v.
 //
-// input  : nops op*
+// input  : gates nops op*   (gates: bit 0 = ElasticQuotaEnableUpdateResourceKey, bit 1 = ElasticQuotaGuaranteeUsage)
 //   op      = kind(0 add,1 update,2 delete) name npods (label ns)* payload [payload_old when kind=1]
-//   payload = plabel isParent tree treeRoot force sw nsBad nns ns* strictBad nstrict key* vec(used) vec(min) vec(max)
+//   payload = plabel isParent tree treeRoot force sw nsBad nns ns* strictBad nstrict key* vec(used) vec(min) vec(max) vec(guaranteed)
 //   vec     = k (key value)*
 // observable : per op  accepted(0/1), then the recorded topology:
 //   ninfos (name parent isParent force treeRoot tree min[3] max[3])*  nhier (key nchildren child*)*  nns (ns quota)*
@@ -103,7 +104,7 @@ type vtC15Payload struct {
 	plabel, tree, sw                         int64
 	isParent, treeRoot, force, nsBad, strBad bool
 	ns, strict                               []int64
-	used, min, max                           [][2]int64
+	used, min, max, guar                     [][2]int64
 }
 
 type vtC15Op struct {
@@ -161,11 +162,13 @@ func (r *vtC15Reader) payload() vtC15Payload {
 	p.used = r.vec()
 	p.min = r.vec()
 	p.max = r.vec()
+	p.guar = r.vec()
 	return p
 }
 
-func vtC15Decode(in []int64) []vtC15Op {
+func vtC15Decode(in []int64) (int64, []vtC15Op) {
 	r := &vtC15Reader{in: in}
+	gate := r.next()
 	n := int(r.next())
 	ops := make([]vtC15Op, 0, n)
 	for i := 0; i < n; i++ {
@@ -184,7 +187,15 @@ func vtC15Decode(in []int64) []vtC15Op {
 		}
 		ops = append(ops, op)
 	}
-	return ops
+	return gate, ops
+}
+
+func vtC15SetGate(gates int64) {
+	if err := utilfeature.DefaultMutableFeatureGate.Set(fmt.Sprintf("%s=%v,%s=%v",
+		features.ElasticQuotaEnableUpdateResourceKey, gates%2 == 1,
+		features.ElasticQuotaGuaranteeUsage, gates >= 2)); err != nil {
+		panic(err)
+	}
 }
 
 // ---- encoding (used by the generator) ----
@@ -205,6 +216,7 @@ func vtC15EncPayload(p vtC15Payload) []int64 {
 	out = append(out, vtC15EncVec(p.used)...)
 	out = append(out, vtC15EncVec(p.min)...)
 	out = append(out, vtC15EncVec(p.max)...)
+	out = append(out, vtC15EncVec(p.guar)...)
 	return out
 }
 
@@ -283,6 +295,10 @@ func vtC15Quota(name int64, p vtC15Payload) *v1alpha1.ElasticQuota {
 		raw, _ := json.Marshal(keys)
 		q.Annotations[extension.AnnotationMaxStrictCheckResourceKeys] = string(raw)
 	}
+	if len(p.guar) > 0 {
+		raw, _ := json.Marshal(vtC15ResList(p.guar))
+		q.Annotations[extension.AnnotationGuaranteed] = string(raw)
+	}
 	q.Status.Used = vtC15ResList(p.used)
 	q.Spec.Min = vtC15ResList(p.min)
 	q.Spec.Max = vtC15ResList(p.max)
@@ -290,9 +306,24 @@ func vtC15Quota(name int64, p vtC15Payload) *v1alpha1.ElasticQuota {
 }
 
 // the environment: a fake API client holding exactly the given pods, with the production
-// "label.quotaName" field index (pkg/util/fieldindex/register.go)
+// "label.quotaName" field index (pkg/util/fieldindex/register.go). The webhook only lists
+// pods, so clients are shared between requests with the same pods (building one is slow).
+var vtC15Clients = map[string]client.Client{}
+
 func vtC15Client(pods [][2]int64) client.Client {
-	b := fake.NewClientBuilder().WithIndex(&corev1.Pod{}, "label.quotaName", func(obj client.Object) []string {
+	key := fmt.Sprint(pods)
+	if c, ok := vtC15Clients[key]; ok {
+		return c
+	}
+	objs := make([]client.Object, 0, len(pods))
+	for i, p := range pods {
+		pod := &corev1.Pod{ObjectMeta: metav1.ObjectMeta{Name: fmt.Sprintf("p%d", i), Namespace: vtC15NsName(p[1])}}
+		if p[0] != -1 {
+			pod.Labels = map[string]string{extension.LabelQuotaName: vtC15QName(p[0])}
+		}
+		objs = append(objs, pod)
+	}
+	c := fake.NewClientBuilder().WithIndex(&corev1.Pod{}, "label.quotaName", func(obj client.Object) []string {
 		pod, ok := obj.(*corev1.Pod)
 		if !ok {
 			return []string{}
@@ -301,17 +332,11 @@ func vtC15Client(pods [][2]int64) client.Client {
 			return []string{}
 		}
 		return []string{pod.Labels[extension.LabelQuotaName]}
-	})
-	c := b.Build()
-	for i, p := range pods {
-		pod := &corev1.Pod{ObjectMeta: metav1.ObjectMeta{Name: fmt.Sprintf("p%d", i), Namespace: vtC15NsName(p[1])}}
-		if p[0] != -1 {
-			pod.Labels = map[string]string{extension.LabelQuotaName: vtC15QName(p[0])}
-		}
-		if err := c.Create(context.TODO(), pod); err != nil {
-			panic(err)
-		}
+	}).WithObjects(objs...).Build()
+	if len(vtC15Clients) > 2000 {
+		vtC15Clients = map[string]client.Client{}
 	}
+	vtC15Clients[key] = c
 	return c
 }
 
@@ -401,7 +426,9 @@ func vtC15Observe(qt *quotaTopology) []int64 {
 }
 
 func vtC15Exec(in []int64) []int64 {
-	ops := vtC15Decode(in)
+	gate, ops := vtC15Decode(in)
+	vtC15SetGate(gate)
+	defer vtC15SetGate(0)
 	qt := NewQuotaTopology(nil)
 	obs := make([]int64, 0, 64*len(ops))
 	for _, op := range ops {
@@ -420,6 +447,8 @@ type vtC15GenState struct {
 	qt    *quotaTopology
 	store map[int64]vtC15Payload
 	style string
+	gate  bool
+	guar  bool
 }
 
 func (g *vtC15GenState) live() []int64 {
@@ -471,6 +500,9 @@ func (g *vtC15GenState) fresh(parent int64) vtC15Payload {
 			}
 			p.min = append(p.min, [2]int64{k, mn})
 		}
+		if g.guar {
+			g.guarantee(&p, nil)
+		}
 		return p
 	}
 	keys := g.keyset()
@@ -483,6 +515,9 @@ func (g *vtC15GenState) fresh(parent int64) vtC15Payload {
 	if pp != nil && r.Intn(8) != 0 {
 		keys = keys[:0]
 		for _, kv := range pp.max {
+			if g.gate && len(pp.max) > 1 && r.Intn(3) == 0 {
+				continue
+			}
 			keys = append(keys, kv[0])
 		}
 		p.tree = pp.tree
@@ -525,8 +560,14 @@ func (g *vtC15GenState) fresh(parent int64) vtC15Payload {
 	if r.Intn(40) == 0 && len(p.max) > 0 {
 		p.max[0][1] = -1
 	}
+	if r.Intn(40) == 0 && len(p.min) > 0 {
+		p.min[len(p.min)-1][1] = -2
+	}
 	p.isParent = r.Intn(5) < 3
 	p.treeRoot = r.Intn(20) == 0
+	if g.guar {
+		g.guarantee(&p, pp)
+	}
 	p.force = r.Intn(15) == 0
 	switch r.Intn(30) {
 	case 0:
@@ -562,6 +603,32 @@ func (g *vtC15GenState) fresh(parent int64) vtC15Payload {
 	return p
 }
 
+// with the gate ElasticQuotaGuaranteeUsage: most quotas live in tree 1, top-level ones are tree
+// roots, and the scheduler-written guaranteed amount is the min, part of it, or absent
+func (g *vtC15GenState) guarantee(p *vtC15Payload, pp *vtC15Payload) {
+	r := g.r
+	if r.Intn(6) != 0 {
+		if pp != nil {
+			p.tree = pp.tree
+		} else if p.plabel <= 0 {
+			p.tree = 1
+			p.treeRoot = r.Intn(5) != 0
+		}
+	}
+	p.guar = nil
+	switch r.Intn(4) {
+	case 0:
+	case 1:
+		for _, kv := range p.min {
+			p.guar = append(p.guar, [2]int64{kv[0], kv[1] / 2})
+		}
+	default:
+		for _, kv := range p.min {
+			p.guar = append(p.guar, [2]int64{kv[0], kv[1] + int64(r.Intn(3))})
+		}
+	}
+}
+
 func vtC15CopyPayload(p vtC15Payload) vtC15Payload {
 	c := p
 	c.ns = append([]int64(nil), p.ns...)
@@ -569,6 +636,7 @@ func vtC15CopyPayload(p vtC15Payload) vtC15Payload {
 	c.used = append([][2]int64(nil), p.used...)
 	c.min = append([][2]int64(nil), p.min...)
 	c.max = append([][2]int64(nil), p.max...)
+	c.guar = append([][2]int64(nil), p.guar...)
 	return c
 }
 
@@ -718,6 +786,9 @@ func (g *vtC15GenState) mutate(name int64, old vtC15Payload) vtC15Payload {
 			}
 		case 3:
 			p.isParent = !p.isParent
+			if p.isParent && len(p.ns) == 0 && r.Intn(3) == 0 {
+				p.ns = []int64{int64(1000 + r.Intn(4))}
+			}
 		case 4, 5, 6: // change a min
 			if len(p.min) > 0 {
 				j := r.Intn(len(p.min))
@@ -773,6 +844,10 @@ func (g *vtC15GenState) mutate(name int64, old vtC15Payload) vtC15Payload {
 				p.ns = append(p.ns, int64(1000+r.Intn(4)))
 			}
 		default:
+			if g.guar && r.Intn(2) == 0 {
+				g.guarantee(&p, nil)
+				break
+			}
 			switch r.Intn(4) {
 			case 0:
 				p.sw = int64(r.Intn(4))
@@ -788,9 +863,13 @@ func (g *vtC15GenState) mutate(name int64, old vtC15Payload) vtC15Payload {
 	return p
 }
 
-func (g *vtC15GenState) pods(target int64, ns []int64) [][2]int64 {
+func (g *vtC15GenState) pods(target int64, ns []int64, likely bool) [][2]int64 {
 	r := g.r
-	if r.Intn(6) != 0 {
+	if likely {
+		if r.Intn(2) != 0 {
+			return nil
+		}
+	} else if r.Intn(6) != 0 {
 		return nil
 	}
 	var out [][2]int64
@@ -822,12 +901,23 @@ func vtC15Gen(r *rand.Rand, i int) (string, []int64) {
 		maxOps = 24
 	}
 	nops := 2 + r.Intn(maxOps)
-	in := []int64{int64(nops)}
+	gates := int64(0)
+	if r.Intn(4) == 0 {
+		gates++
+	}
+	if r.Intn(4) == 0 {
+		gates += 2
+	}
+	g.gate = gates%2 == 1
+	g.guar = gates >= 2
+	vtC15SetGate(gates)
+	defer vtC15SetGate(0)
+	in := []int64{gates, int64(nops)}
 	names := []int64{3, 4, 5, 6, 7}
 	if g.style == "deep" {
 		names = []int64{3, 4, 5, 6, 7, 8}
 		nops += 3
-		in[0] = int64(nops)
+		in[1] = int64(nops)
 	}
 	for j := 0; j < nops; j++ {
 		live := g.live()
@@ -887,7 +977,12 @@ func vtC15Gen(r *rand.Rand, i int) (string, []int64) {
 				op.newP = g.fresh(-1)
 			}
 		}
-		op.pods = g.pods(op.name, op.oldP.ns)
+		podNs := op.oldP.ns
+		if op.kind == 2 {
+			podNs = op.newP.ns
+		}
+		// an is-parent flip to true (refused while pods are bound) gets pods more often
+		op.pods = g.pods(op.name, podNs, op.kind == 1 && !op.oldP.isParent && op.newP.isParent)
 		in = append(in, vtC15EncOp(op)...)
 		if vtC15Apply(g.qt, op) {
 			switch op.kind {
@@ -979,7 +1074,7 @@ func vtC15ExhGen(r *rand.Rand, i int) (string, []int64) {
 	}
 	qt := NewQuotaTopology(nil)
 	store := map[int64]vtC15Payload{}
-	in := []int64{int64(len(codes))}
+	in := []int64{0, int64(len(codes))}
 	for _, c := range codes {
 		op := vtC15ExhOp(c, store)
 		in = append(in, vtC15EncOp(op)...)
